@@ -1,6 +1,7 @@
 package checks
 
 import (
+	"bufio"
 	"bytes"
 	"encoding/json"
 	"errors"
@@ -202,6 +203,17 @@ func judgeC15Base(b *built, in []byte) (ref []byte, sig, what string) {
 	if string(o2) != o1 {
 		return nil, "bytes-vs-string", fmt.Sprintf("SanitizeBytes=%s differs from Sanitize=%s", run.Q(string(o2)), run.Q(o1))
 	}
+	// a result already handed out stays what it was when the policy goes on to sanitise something else (checked
+	// here, right after SanitizeBytes, and again below after SanitizeReader)
+	other := "<i>another</i> document: " + s[len(s)/2:] + s[:len(s)/2] + " <b>end</b>"
+	func() {
+		defer func() { recover() }()
+		b.P.SanitizeBytes([]byte(other))
+		b.P.Sanitize(other)
+	}()
+	if string(o2) != o1 {
+		return nil, "result-overwritten|bytes", fmt.Sprintf("the slice SanitizeBytes returned for %s read %s at first and %s after the policy sanitised another document", run.Q(s), run.Q(o1), run.Q(string(o2)))
+	}
 	var o3 *bytes.Buffer
 	func() {
 		defer func() {
@@ -220,6 +232,18 @@ func judgeC15Base(b *built, in []byte) (ref []byte, sig, what string) {
 			got = o3.String()
 		}
 		return nil, "reader-vs-string", fmt.Sprintf("SanitizeReader=%s differs from Sanitize=%s", run.Q(got), run.Q(o1))
+	}
+	func() {
+		defer func() { recover() }()
+		b.P.SanitizeBytes([]byte(other))
+		b.P.SanitizeReader(strings.NewReader(other))
+		b.P.Sanitize(other)
+	}()
+	if string(o2) != o1 {
+		return nil, "result-overwritten|bytes", fmt.Sprintf("the slice SanitizeBytes returned for %s read %s at first and %s after the policy sanitised another document", run.Q(s), run.Q(o1), run.Q(string(o2)))
+	}
+	if o3.String() != o1 {
+		return nil, "result-overwritten|reader", fmt.Sprintf("the buffer SanitizeReader returned for %s read %s at first and %s after the policy sanitised another document", run.Q(s), run.Q(o1), run.Q(o3.String()))
 	}
 	return []byte(o1), "", ""
 }
@@ -326,6 +350,33 @@ func runC15(c *run.Ctx) {
 		cmdAlpha := append(append([]string{}, fragCore...), "%", "%s %d", "100% sure", `<a href="/a%20b">`, "\n", "\r\n", "  ", "\t", "%!", "\x00", "é",
 			`<font color="infrared">`, `<font color="#1234567">`, `<font color="Red">`, `<hr bgcolor="xredx">`, `<button type="submit">`, `<button type="a">`, `<table border=1 cellpadding=x>`,
 			`<style type="text/css">`, `<img src="data:image/png;base64,iVBORw0KGgo=">`, `<span class="a b" style="x">`, `<a href="http://e.x/" class="c">`, `<title>`, `<kbd>`)
+		// large stdin (a tool must not cap or truncate what arrives): 64 KiB, 1 MiB + 1 and 3 MiB, for each tool
+		if c.Shard < 3 {
+			n := []int{64 << 10, 1<<20 + 1, 3 << 20}[c.Shard]
+			big := []byte("<p>start</p>" + strings.Repeat("<b>text</b> and <i>more</i> words\n", n/33) + "<p>end</p>")
+			for _, t := range tools {
+				want, pm := San(t.b.P, string(big))
+				if pm != "" {
+					continue
+				}
+				cmd := exec.Command(t.bin)
+				cmd.Stdin = bytes.NewReader(big)
+				var so, se bytes.Buffer
+				cmd.Stdout, cmd.Stderr = &so, &se
+				err := cmd.Run()
+				c.Eval()
+				c.Transitions++
+				c.NontrivialN++
+				if err != nil || so.String() != want {
+					cs := mkCase(t.b.S, big)
+					cs.Extra = json.RawMessage(`"cmd"`)
+					c.Violate("cmd-large|"+t.b.S.Name, fmt.Sprintf("%s printed %d bytes (err=%v stderr=%s) for %d bytes of stdin, the documented policy gives %d bytes", t.b.S.Name, so.Len(), err, run.Q(se.String()), len(big), len(want)), cs)
+					c.Outcome("violation|cmd")
+				} else {
+					c.Outcome("cmd-output-equals-library")
+				}
+			}
+		}
 		SeqsS(c, "c15cmd", cmdAlpha, 0, kk, func(in []byte, _ []int) {
 			for _, t := range tools {
 				want, pm := San(t.b.P, string(in))
@@ -530,6 +581,22 @@ func judgeReadFaultKind(p *bluemonday.Policy, in []byte, j int, readErr error) (
 	}
 	if err == nil {
 		return "read-error-swallowed", fmt.Sprintf("reader failed after %d bytes but SanitizeReaderToWriter returned nil", j)
+	}
+	// the same into a destination that buffers and offers Flush() error (as *bufio.Writer does)
+	func() {
+		defer func() {
+			if r := recover(); r != nil {
+				pm = fmt.Sprint(r)
+			}
+		}()
+		var buf bytes.Buffer
+		err = p.SanitizeReaderToWriter(&chunkReader{data: in, failAt: j, failErr: readErr}, bufio.NewWriter(&buf))
+	}()
+	if pm != "" {
+		return "panic", "panicked: " + pm
+	}
+	if err == nil {
+		return "read-error-swallowed|flusher", fmt.Sprintf("reader failed after %d bytes but SanitizeReaderToWriter into a *bufio.Writer returned nil", j)
 	}
 	var ob *bytes.Buffer
 	func() {
